@@ -163,6 +163,28 @@ def ob_open_content(local_as: int, hold: int, ident: int, prop: int) -> bool:
     elif how == 'rejected-as':
         w.ev_data(S.rfc_open(4, 64999, prop, 0x0A000002, S.cap_as4(64999) + S.cap_param(2)))
         w.ev_conn_lost()
+    elif how == 'manual-stop-start':
+        assume(prop != 1 and prop != 2)
+        w.ev_data(S.rfc_open(4, as2, prop, 0x0A000002, peer_caps(P['peer_caps'], peer_as)))
+        if w.state != S.OPENCONFIRM:
+            return False
+        if P.get('established_first', True):
+            w.ev_data(S.KEEPALIVE)
+        w.ev_manual_stop()
+        w.ev_conn_lost()
+        mark2 = w.mark()
+        w.ev_manual_start()
+        w.ev_tcp_ok()
+        o2 = first_open(w, mark2)
+        cover('open2')
+        return o2 is not None and o2 == o1 and w.state == S.OPENSENT
+    elif how == 'notif-version':
+        assume(prop != 1 and prop != 2)
+        w.ev_data(S.rfc_open(4, as2, prop, 0x0A000002, peer_caps(P['peer_caps'], peer_as)))
+        if w.state != S.OPENCONFIRM:
+            return False
+        w.ev_data(S.rfc_notification(2, 1))
+        w.ev_conn_lost()
     elif how == 'notification':
         w.ev_data(S.rfc_open(4, as2, prop, 0x0A000002, peer_caps(P['peer_caps'], peer_as)))
         if w.state == S.OPENCONFIRM:
@@ -213,15 +235,23 @@ def ob_accept(version: int, as2: int, as4: int, hold: int, conf: int) -> bool:
 
 
 def ob_as4_mode(a1: int, a2: int) -> bool:
-    """after the OPEN exchange AS numbers in UPDATEs are 4-octet iff both sides advertised capability 65"""
-    local_cap, peer_cap = P['local_cap'], P['peer_cap']
-    both = local_cap and peer_cap
+    """after the OPEN exchange AS numbers in UPDATEs are 4-octet iff both sides advertised capability 65
+    (the agent advertises it when configured to, and always when its own AS exceeds 65535)"""
+    local_flag, peer_cap = P['local_cap'], P['peer_cap']
+    local_as, remote_as = P.get('local_as', 65001), P.get('remote_as', 65002)
+    local_adv = local_flag or local_as > 65535
+    both = local_adv and peer_cap
     hi = 2 ** 32 if both else 2 ** 16
     assume(1 <= a1 < hi and 1 <= a2 < hi)
     caps = dict(S.DEFAULT_CFG['caps'])
-    caps['four_bytes_as'] = local_cap
-    w = S.in_state(S.OPENSENT, {'caps': caps, 'remote_as': 65002, 'local_as': 65001})
-    w.ev_data(S.rfc_open(4, 65002, 90, 0x0A000002, S.cap_as4(65002) if peer_cap else S.cap_param(2)))
+    caps['four_bytes_as'] = local_flag
+    w = S.in_state(S.OPENSENT, {'caps': caps, 'remote_as': remote_as, 'local_as': local_as})
+    as2 = remote_as if remote_as < 65536 else 23456
+    w.ev_data(S.rfc_open(4, as2, 90, 0x0A000002, S.cap_as4(remote_as) if peer_cap else S.cap_param(2)))
+    if remote_as > 65535 and not peer_cap:
+        # the peer cannot express its AS: the OPEN must be rejected (Bad Peer AS) - nothing more to observe
+        cover('update')
+        return w.state == S.IDLE
     if w.state != S.OPENCONFIRM:
         return False
     w.ev_data(S.KEEPALIVE)
@@ -250,7 +280,7 @@ def obligations(tier, seed):
                            'enhanced_route_refresh': False, 'graceful_restart': False, 'cisco_multi_session': False,
                            'add_path': None, 'afi_safi': [(1, 1)]},
                'addpath': dict(full, add_path='ipv4_both')}
-    firsts = ['accepted', 'rejected-hold', 'rejected-as', 'notification']
+    firsts = ['accepted', 'rejected-hold', 'rejected-as', 'notification', 'manual-stop-start', 'notif-version']
     peers = ['none', 'as4', 'as4+rr', 'rr-only', 'mp+as4+addpath']
     for cname, caps in capsets.items():
         for how in firsts:
@@ -277,6 +307,7 @@ def obligations(tier, seed):
                           cap=200 if quick else 600))
     for lc in (True, False):
         for pc in (True, False):
-            out.append(ob('C05/as4mode/local=%s/peer=%s' % (lc, pc), 'ob_as4_mode', {'local_cap': lc, 'peer_cap': pc},
-                          covers=['update']))
+            for (las, ras) in ((65001, 65002), (70000, 65002), (65001, 200000), (70000, 200000)):
+                out.append(ob('C05/as4mode/local=%s/peer=%s/las=%d/ras=%d' % (lc, pc, las, ras), 'ob_as4_mode',
+                              {'local_cap': lc, 'peer_cap': pc, 'local_as': las, 'remote_as': ras}, covers=['update']))
     return out
